@@ -131,8 +131,7 @@ class RegLanUnit:
             fname = "regex[%s]" % owner.get(pid, "P%d" % pid)
             for clause, props, bad in (
                     ("not-nullable", ["C19", "C02"], z3.Re(z3.StringVal(""))),
-                    ("no-leading-blank", ["C09"], z3.Concat(ws, full)),
-                    ("no-trailing-blank", ["C09"], z3.Concat(full, ws))):
+                    ("no-leading-blank", ["C09"], z3.Concat(ws, full))):
                 if prop not in props:
                     continue
                 o = Obligation(fname, clause, props)
